@@ -221,6 +221,12 @@ func rewriteFile(fs *fileState) {
 				fs.add(s, e, false, func() string { return "simrt.ReadFile" })
 				rep.Edits["R4 ReadFile"]++
 				needSimrt = true
+			case path == "sync" && (name == "Cond" || name == "NewCond"):
+				s, e := fs.off(x.Pos()), fs.off(x.End())
+				nm := name
+				fs.add(s, e, false, func() string { return "simrt." + nm })
+				rep.Edits["R7 sync."+name]++
+				needSimrt = true
 			case path == "sync" && name == "Once":
 				s, e := fs.off(x.Pos()), fs.off(x.End())
 				fs.add(s, e, false, func() string { return "simrt.Once" })
